@@ -69,10 +69,13 @@ def gen_case(r):
         for li in range(nl):
             w = r.choice(top if li == 0 else subs)
             levels.append([w, w])
-        # sort@display on the last level sometimes
+        # sort@display on the last level sometimes, and (less often) on the levels above it
         if r.random() < 0.2:
             disp = r.choice(['Shown', 'display', 'Zed'])
             levels[-1] = [levels[-1][0], disp + levels[-1][0]]
+        for li in range(nl - 1):
+            if r.random() < 0.15:
+                levels[li] = [levels[li][0], r.choice(['Shown', 'Zed']) + levels[li][0]]
         fmt = None
         k = r.random()
         if k < 0.1:
